@@ -76,6 +76,8 @@ class DictToList(_Cfg):
                     yield f'level{lvl}:{k}:scalar_shared', result[lvl].get(k) is v
         yield 'input_not_modified', all((st.d[k] == d[k] if isinstance(d[k], list) else st.d[k] is d[k]) for k in d) and set(st.d) == set(d)
         yield 'level_dicts_are_distinct_objects', len({id(x) for x in result}) == len(result)
+        # set up BY VALUE: what a level later writes into its dictionary (sweepers do) must not land in the caller's dictionary
+        yield 'level_dicts_are_new_objects_not_the_callers', all(x is not st.d for x in result)
 
     def canary(self, st, old, result, exc):
         if any(k >= 2 for k in st.inst['shape']) and max(st.inst['shape']) > min(k for k in st.inst['shape'] if k >= 2):
